@@ -280,6 +280,35 @@ func monC05(x *Ctx) {
 				x.Count("returned-empty-maps-written-to", poisonEmptyMaps(reflect.ValueOf(q), 0))
 			}
 		}
+		// the same object handed over with its own Null / Unknown flag set (a hand-built value that carries its
+		// payload under the flag): whatever the converter makes of the flag, the excluded fields are not its to touch
+		if i%3 != 2 {
+			flagged := clean
+			flagged.Null, flagged.Unknown = i%3 == 0, i%3 == 1
+			q, _ := x.NewValue(in+"/prior-flagged", mDense)
+			before := x.rootExcluded(q)
+			x.Eval(1)
+			out := x.CopyFrom(flagged, q)
+			if out.Panic != nil {
+				x.Violate(panicFP("CopyFrom", out)+"/"+x.embedTypeClass(), in, "CopyFrom panicked on a conforming object (its own null/unknown flag set)", map[string]interface{}{"panic": panicDetail(out), "object": dumpTF(flagged)})
+			} else {
+				after := x.rootExcluded(q)
+				for k := range before {
+					if _, ok := after[k]; !ok {
+						delete(before, k)
+					}
+				}
+				for k := range after {
+					if _, ok := before[k]; !ok {
+						delete(after, k)
+					}
+				}
+				x.Count("excluded-fields-compared-root-flagged", len(after))
+				if !reflect.DeepEqual(before, after) {
+					x.Violate("excluded-touched/root-flagged", in, fmt.Sprintf("excluded fields changed (object flagged null=%v unknown=%v): %v", flagged.Null, flagged.Unknown, DiffPaths(before, after)), map[string]interface{}{"object": dumpTF(flagged)})
+				}
+			}
+		}
 		// the payload under a null / unknown flag never matters
 		for _, target := range []string{"fresh", "prefilled"} {
 			a, b := results["clean/"+target], results["payload/"+target]
